@@ -466,8 +466,8 @@ PROPS["C03"] = {
     "modules": ["WhatIs.Props.C03"],
     "theorems": ["WhatIs.C03.tables_ok", "WhatIs.C03.key_usage_readback", "WhatIs.C03.pathlen_shown_iff", "WhatIs.C03.pathlen_value",
                  "WhatIs.C03.description_injective", "WhatIs.C03.attribute_names", "WhatIs.C03.verbatim_fields",
-                 "WhatIs.C03.list_readback_partial", "WhatIs.C03.san_separator_witness"],
-    "facts": {"keyusage.isMap": False, "keyusage.count": 9, "eku.count": 14},
+                 "WhatIs.C03.list_readback_partial", "WhatIs.C03.san_separator_witness", "WhatIs.C03.sans_from_extension", "WhatIs.C03.sans_readback"],
+    "facts": {"keyusage.isMap": False, "keyusage.count": 9, "eku.count": 14, "cert.sansFromExtension": True},
     "nontrivial": nt_c03,
     "rule": "certificates built with x509.CreateCertificate from templates: key-usage masks spread over all 512 values (thorough: every "
             "mask), basic constraints absent / end-entity / CA with pathLen absent, 0, n, subject key id present/absent, 0..3 known EKUs "
